@@ -709,3 +709,72 @@ def number_branch(ctx, rule, entries, fn):
                       file=FJ, line=q.lineno, engine='E7')
     else:
         ctx.error(rule, 'number branch: the Quantity return is not guarded; cannot decide')
+
+
+# ---------------------------------------------------------------- jsonparser.parse_scalar: when is text decoded as JSON?
+
+def parse_scalar_entry(ctx, rule):
+    """parse_scalar is the public scalar entry AND the element decoder of nested lists/dicts (whose members are already
+    decoded strings).  So: (a) the value handed on to parse_embedded_scalar is the argument itself or json.loads(argument)
+    -- never a stripped / otherwise rewritten text; (b) json.loads is attempted only for text that looks like a JSON
+    string/array/object (first and last character), not for every text: "42", "true", "null" inside a list are
+    strings."""
+    m = ctx.model
+    try:
+        fn = m.func('jsonparser', 'parse_scalar', 'nested')
+    except AnalysisError as e:
+        ctx.error(rule, str(e))
+        return
+    p = fn.args.args[0].arg
+    con = '%s::parse_scalar' % FJ
+    n = 0
+    for st in ast.walk(fn):
+        if isinstance(st, (ast.Assign, ast.AugAssign)):
+            tg = st.targets[0] if isinstance(st, ast.Assign) else st.target
+            if not (isinstance(tg, ast.Name) and tg.id == p):
+                continue
+            n += 1
+            v = st.value
+            where = '%s:%d' % (FJ, st.lineno)
+            if isinstance(v, ast.Call) and norm(v.func) == 'json.loads' and v.args and norm(v.args[0]) == p:
+                # guard: first/last character tests on the way, not a bare try
+                from .c17 import _guards
+                gs = [norm(t) for t, pol in _guards(fn, st) if pol]
+                looks = [g for g in gs if '%s[0]' % p in g and '%s[-1]' % p in g]
+                in_try = any(isinstance(a, ast.Try) for a in _ancestors(st, fn))
+                if looks:
+                    ctx.ob(rule, 'text is decoded with json.loads only when its first and last character say it is a JSON '
+                                 'string, array or object', True, where)
+                elif in_try or not gs or all('isinstance' in g for g in gs):
+                    ctx.violation(rule, con, norm(st),
+                                  'the 3.0 list ["42", "true", "null"] (three un-prefixed strings) decodes to [42, True, None]: every '
+                                  'text is tried as JSON, and list/dict members pass through parse_scalar a second time after the '
+                                  'document itself was decoded', 'json.loads is applied to any text, not only to text that looks '
+                                  'like JSON', file=FJ, line=st.lineno, engine='E7')
+                else:
+                    ctx.error(rule, 'parse_scalar: json.loads guarded by %s; cannot decide' % gs)
+                continue
+            used = [x.func.attr for x in ast.walk(v) if isinstance(x, ast.Call) and isinstance(x.func, ast.Attribute)]
+            if any(u in TEXT_REWRITERS for u in used) and any(isinstance(x, ast.Name) and x.id == p for x in ast.walk(v)):
+                ctx.violation(rule, con, norm(st),
+                              'the dict {"k": "x "} (or the list ["a", " ", "b"]) in JSON mode: members are decoded strings that go '
+                              'through parse_scalar again, where `%s` rewrites them -- "x " comes back as "x"' % norm(v)[:50],
+                              'parse_scalar rewrites its text argument (%s) before decoding' % ', '.join(u for u in used if u in TEXT_REWRITERS),
+                              file=FJ, line=st.lineno, engine='E7')
+            else:
+                ctx.error(rule, 'parse_scalar rebinds its argument with `%s`; cannot decide' % norm(v)[:60])
+    calls = [c for c in ast.walk(fn) if isinstance(c, ast.Call) and norm(c.func) == 'parse_embedded_scalar']
+    if len(calls) == 1 and calls[0].args and norm(calls[0].args[0]) == p:
+        ctx.ob(rule, 'the (possibly decoded) argument is handed to parse_embedded_scalar as it is', True, '%s:%d' % (FJ, calls[0].lineno))
+    else:
+        ctx.error(rule, 'parse_scalar: hand-over to parse_embedded_scalar not recognised')
+    ctx.floor('rebindings in parse_scalar', n, 1)
+
+
+def _ancestors(node, stop):
+    out = []
+    p = getattr(node, '_parent', None)
+    while p is not None and p is not stop:
+        out.append(p)
+        p = getattr(p, '_parent', None)
+    return out
